@@ -118,6 +118,16 @@ def update (spots : List (Nat × Nat)) (guess : List Rat) (d : Data) : Data :=
     let i := spots.idxOf (q, c)
     if i < spots.length then some ((guess[i]?).map id) else none)
 
+/-- `_catch_missing`: a non-finite value at an UNKNOWN cell is replaced by the fallback value (and reported);
+every other cell — measurement variables, exogenous data, initial and terminal conditions — is left alone,
+missing or not -/
+def catchMissing (spots : List (Nat × Nat)) (fallback : Rat) (d : Data) : Data :=
+  d.modify (fun q c => if (q, c) ∈ spots ∧ d.get q (c : Int) = none then some (some fallback) else none)
+
+/-- the cells `_catch_missing` reports through `when_missing` -/
+def missingSpots (spots : List (Nat × Nat)) (d : Data) : List (Nat × Nat) :=
+  spots.filter (fun s => d.get s.1 (s.2 : Int) == none)
+
 /-- `evaluator.get_init_guess`: the data at the spots (`none` if any is non-finite) -/
 def initGuess (spots : List (Nat × Nat)) (d : Data) : Option (List Rat) :=
   spots.mapM (fun s => d.get s.1 s.2)
